@@ -10,6 +10,7 @@
 #include "vpeer.h"
 #include "vs.h"
 #include <errno.h>
+#include <pthread.h>
 #include <stdlib.h>
 #include <string.h>
 #include <sys/ioctl.h>
@@ -823,6 +824,176 @@ run_retry(void *arg)
 	vh_fini();
 }
 
+// ---- schedules: retransmission machinery racing with its triggers -----------------------------------------
+// (a) the connection is closed (nng_pipe_close) at the moment a request's send completes: the request must
+//     be retransmitted on the replacement connection at once (not after RESENDTIME = 60 s), or with
+//     resending disabled the receive fails with NNG_ECONNRESET.
+// (b) the retry timer ticks on an empty queue (the context that armed it was closed) while another context
+//     sends; the first copy is lost: that request is still retransmitted after RESENDTIME.
+static nng_socket rr_s;
+static nng_pipe   rr_pipe;
+static int        rr_have_pipe;
+static void
+rr_pipe_cb(nng_pipe p, nng_pipe_ev ev, void *arg)
+{
+	(void) arg;
+	if (ev == NNG_PIPE_EV_ADD_POST) {
+		rr_pipe      = p;
+		rr_have_pipe = 1;
+	}
+}
+static int rr_rv_send;
+static void *
+rr_sender(void *a)
+{
+	nng_ctx *cx = a;
+	nng_msg *m;
+	if (nng_msg_alloc(&m, 0) != 0 || nng_msg_append(m, "REQ", 3) != 0)
+		vs_fail("harness:rr", "msg alloc");
+	// (non-blocking: a REQ send waits for a connection, and the replacement only comes later)
+	rr_rv_send = cx ? nng_ctx_sendmsg(*cx, m, NNG_FLAG_NONBLOCK)
+	                : nng_sendmsg(rr_s, m, NNG_FLAG_NONBLOCK);
+	if (rr_rv_send != 0)
+		nng_msg_free(m);
+	return NULL;
+}
+static void *
+rr_closer(void *a)
+{
+	(void) a;
+	nng_pipe_close(rr_pipe);
+	return NULL;
+}
+// returns 1 and the request id if a request frame "REQ" is waiting on fd
+static int
+rr_next_req(int fd, vp_rd *rd, uint8_t id[4])
+{
+	const uint8_t *p;
+	size_t         len;
+	for (;;) {
+		int k = vp_next_frame(fd, rd, &p, &len);
+		if (k != 1)
+			return 0;
+		if (len == 7 && memcmp(p + 4, "REQ", 3) == 0) {
+			memcpy(id, p, 4);
+			return 1;
+		}
+	}
+}
+static void
+run_retryrace(void *arg)
+{
+	int          kind = (int) (intptr_t) arg;
+	nng_listener l;
+	vh_init(0);
+	VH_OK(nng_req0_open(&rr_s));
+	VH_OK(nng_socket_set_ms(rr_s, NNG_OPT_REQ_RESENDTICK, 10));
+	VH_OK(nng_socket_set_ms(rr_s, NNG_OPT_REQ_RESENDTIME, kind == 0 ? 60000 : 100));
+	VH_OK(nng_pipe_notify(rr_s, NNG_PIPE_EV_ADD_POST, rr_pipe_cb, NULL));
+	rr_have_pipe = 0;
+	int fd = vp_connect_raw(rr_s, SP_REP, &l);
+	if (fd < 0 || !rr_have_pipe)
+		vs_fail("harness:setup", "raw replier");
+	vp_rd    *rd = calloc(1, sizeof(*rd));
+	uint8_t   id[4];
+	pthread_t t1, t2;
+	if (kind == 0) {
+		vs_window(1);
+		pthread_create(&t1, NULL, rr_sender, NULL);
+		pthread_create(&t2, NULL, rr_closer, NULL);
+		pthread_join(t1, NULL);
+		pthread_join(t2, NULL);
+		vs_window(0);
+		vs_settle();
+		if (rr_rv_send == NNG_EAGAIN) { // the close won: nothing was accepted, nothing to resend
+			vs_outcome("loss-before-send");
+			close(fd);
+			free(rd);
+			nng_socket_close(rr_s);
+			vh_fini();
+			return;
+		}
+		if (rr_rv_send != 0)
+			vs_fail("C12:send", "request: %s", nng_strerror(rr_rv_send));
+		int on_old = rr_next_req(fd, rd, id); // may or may not have made it out
+		close(fd);
+		// the replacement connection
+		int64_t t0  = vs_now();
+		int     fd2 = vp_attach_more(l);
+		if (fd2 < 0 || vp_handshake(fd2, SP_REP) < 0)
+			vs_fail("harness:rr", "replacement connection");
+		memset(rd, 0, sizeof(*rd));
+		int seen = 0;
+		for (int t = 0; t < 12 && !seen; t++) {
+			vs_settle();
+			seen = rr_next_req(fd2, rd, id);
+			if (!seen)
+				vs_sleep(5);
+		}
+		vs_nontrivial();
+		if (!seen)
+			vs_fail("C12:no-retransmit-after-loss",
+			    "the connection was closed as the request's send completed (%s on the old "
+			    "connection); a replacement connection was up for %lld ms and the request "
+			    "was not retransmitted on it (RESENDTIME 60 s)",
+			    on_old ? "seen" : "not seen", (long long) (vs_now() - t0));
+		if (vp_send(fd2, id, 4, "REP", 3) != 0)
+			vs_fail("harness:peer", "raw write");
+		vs_settle();
+		nng_msg *m;
+		VH_OK(nng_socket_set_ms(rr_s, NNG_OPT_RECVTIMEO, 200));
+		int rv = nng_recvmsg(rr_s, &m, 0);
+		if (rv != 0)
+			vs_fail("C12:no-reply", "reply on the replacement connection: %s", nng_strerror(rv));
+		nng_msg_free(m);
+		vs_outcome("loss-at-completion old=%d", on_old);
+		close(fd2);
+	} else {
+		nng_ctx a, b;
+		VH_OK(nng_ctx_open(&a, rr_s));
+		VH_OK(nng_ctx_open(&b, rr_s));
+		// context a arms the retry timer and goes away: the next tick finds an empty queue
+		nng_msg *m;
+		VH_OK(nng_msg_alloc(&m, 0));
+		VH_OK(nng_msg_append(m, "AAA", 3));
+		VH_OK(nng_ctx_sendmsg(a, m, 0));
+		vs_settle();
+		VH_OK(nng_ctx_close(a));
+		vs_settle();
+		// b sends exactly when that tick fires
+		vs_window(1);
+		vs_sleep(9);
+		pthread_create(&t1, NULL, rr_sender, &b);
+		pthread_join(t1, NULL);
+		vs_settle();
+		vs_window(0);
+		if (rr_rv_send != 0)
+			vs_fail("C12:send", "request: %s", nng_strerror(rr_rv_send));
+		int64_t t0 = vs_now();
+		if (!rr_next_req(fd, rd, id))
+			vs_fail("C12:never-sent", "the request never reached the replier");
+		// the first copy is ignored; a second one must come after RESENDTIME
+		int seen = 0;
+		for (int t = 0; t < 40 && !seen; t++) {
+			vs_sleep(5);
+			vs_settle();
+			seen = rr_next_req(fd, rd, id);
+		}
+		vs_nontrivial();
+		if (!seen)
+			vs_fail("C12:no-retransmit-after-resendtime",
+			    "a request sent while the retry timer ticked on an empty queue was written "
+			    "once and never again within %lld ms (RESENDTIME 100, tick 10)",
+			    (long long) (vs_now() - t0));
+		vs_outcome("tick-race resend after %lld", (long long) (vs_now() - t0));
+		nng_ctx_close(b);
+		close(fd);
+	}
+	free(rd);
+	nng_socket_close(rr_s);
+	vh_fini();
+}
+
 static void
 explore(const scn *sc)
 {
@@ -891,5 +1062,19 @@ main(int argc, char **argv)
 	    "{recv timeout inf,2000,250} x {connected,unconnected at send}; fair "
 	    "suffix; RESENDTIME %d tick %d; bounds: resend %d ms, after-loss %d ms",
 	    F_NLETTER - 1, g_depth, RESEND, TICK, RESEND_BOUND, PROMPT_BOUND);
+	for (int k = 0; k < 2; k++) {
+		vx_cfg c2;
+		memset(&c2, 0, sizeof(c2));
+		c2.prop     = "C12";
+		c2.scenario = k ? "race-tick-empty-queue-send" : "race-loss-at-send-completion";
+		c2.run      = run_retryrace;
+		c2.arg      = (void *) (intptr_t) k;
+		c2.budget[VB_PREEMPT] = vx_is_thorough() ? 2 : 1;
+		c2.budget[VB_SWITCH]  = 2;
+		c2.budget[VB_TIMER]   = 1;
+		c2.budget[VB_ENV]     = -1;
+		c2.total              = 2;
+		vx_explore(&c2, NULL);
+	}
 	return vx_finish();
 }
